@@ -58,7 +58,8 @@ def run_pair(case, ctx=None, crosscheck=0):
                 )
         # cross-check of the snapshot technique against real kills (fork + os._exit) at a few generated points
         for j in range(crosscheck):
-            k = (case['op']['a'] * 7 + j * 13) % len(points) if points else None
+            real_points = len(points) - 1  # the last entry is the pseudo-point 'operation returned'
+            k = (case['op']['a'] * 7 + j * 13) % real_points if real_points > 0 else None
             if k is None:
                 break
             cr.copy_state(prep.master, prep.work)
@@ -104,7 +105,7 @@ def same_tree(left, right):
 
 def run_shard(ctx):
     quick = ctx.tier == 'quick'
-    ctx.set_budget(75 if quick else 2400)
+    ctx.set_budget(75 if quick else 1100)
 
     def run_one(case):
         _, fp, _, labels = run_pair(case, ctx, crosscheck=1 if quick else 3)
